@@ -16,25 +16,28 @@ def IVar.print : IVar → String
   | .busyS w t m => w ++ (if m then "_maybe_busy_" else "_busy_") ++ t ++ "_start"
   | .busyE w t m => w ++ (if m then "_maybe_busy_" else "_busy_") ++ t ++ "_end"
   | .horizon => "horizon"
-  | .fresh n => "%x" ++ toString n ++ "%"
+  | .fresh c k => "%x" ++ toString c ++ "_" ++ toString k ++ "%"
+  | .ifresh i k => "%y" ++ toString i ++ "_" ++ toString k ++ "%"
+  | .bfresh b k => "%z" ++ b ++ "_" ++ toString k ++ "%"
   | .grpS c => "task_group_start_%g" ++ toString c ++ "%"
   | .grpE c => "task_group_end_%g" ++ toString c ++ "%"
-  | .overlap lo hi k => "Overlap_" ++ toString lo ++ "_" ++ toString hi ++ "_%o" ++ toString k ++ "%"
+  | .overlap c lo hi k => "Overlap_" ++ toString lo ++ "_" ++ toString hi ++ "_%o" ++ toString c ++ "_" ++ toString k ++ "%"
   | .bufInit b => b ++ "_initial_level"
   | .bufLevel b t => b ++ "_level_" ++ t
   | .bufTime b t => b ++ "_sc_time_" ++ t
   | .ind n => "Indicator_" ++ n
+  | .indAuto cls i => "Indicator_" ++ cls ++ "_%u" ++ toString i ++ "%"
   | .named s => s
 
 def BVar.print : BVar → String
   | .sched t => t ++ "_scheduled"
   | .sel s w => "Selected_" ++ w ++ "_%s" ++ toString s ++ "%"
   | .applied c => "constraint_%c" ++ toString c ++ "%_applied"
-  | .inInterval t k => "InTimeIntervalTask_" ++ t ++ "_%i" ++ toString k ++ "%"
+  | .inInterval c t k => "InTimeIntervalTask_" ++ t ++ "_%i" ++ toString c ++ "_" ++ toString k ++ "%"
   | .named s => s
 
 private def app (op : String) (args : List String) : String :=
-  "(" ++ " ".intercalate (op :: args) ++ ")"
+  if args.isEmpty then op else "(" ++ " ".intercalate (op :: args) ++ ")"
 
 private def ones (n : Nat) : List String := (List.replicate n "[1]")
 
@@ -77,8 +80,8 @@ def Fml.print : Fml → String
   | .atLeast l k => app "at-least" (("[" ++ toString k ++ "]") :: Fml.printList l)
   | .pbEq l k => app "pbeq" (("[" ++ toString k ++ "]") :: (ones l.length ++ Fml.printList l))
   | .storeFix arr i v => app "=" [arr, app "store" [arr, i.print, v.print]]
-  | .pulse f p q =>
-      "(forall ((x Int)) " ++ app "if" [app "=" ["(bound 0)", p.print], app "=" [app f ["(bound 0)"], toString q],
+  | .pulse x f p q =>
+      "(forall ((" ++ x ++ " Int)) " ++ app "if" [app "=" ["(bound 0)", p.print], app "=" [app f ["(bound 0)"], toString q],
          app "=" [app f ["(bound 0)"], "0"]] ++ ")"
   | .reqSum lhs rhs => app "=" [app "to_real" [lhs.print], app "+" [app "to_real" [rhs.print], "(real 0/1)"]]
   | .tracked p a => app "=>" ["asst_%a" ++ toString p ++ "%", a.print]
